@@ -5,6 +5,7 @@ CONSTANTS
   Inners = {"chatIn", "spoof", "private", "delay"}
   Gens = {"v1", "v2"}
   JidCfgs = {"plain", "nores", "mixed"}
+  Estabs = {"configured"}
   Hows = {"setJid", "setUserDomain", "assign", "copySetJid"}
   MaxHist = 99
 ACTION_CONSTRAINT EmitBehaviour
